@@ -4,4 +4,4 @@ CONSTANTS Clients = {"c1"}
   Progs <- Progs1
   MaxTime = 2
   WithFix = FALSE
-INVARIANTS AtMostOnce ExactlyOnceAtClose NoLeak
+INVARIANTS AtMostOnce ExactlyOnceAtClose NoLeak NoSleepThroughExit
